@@ -183,7 +183,13 @@ TokenTxs ==
                Tok("RecreateCoin", "o1", NewTok("TOK", 3, 6, 40, FALSE, FALSE) @@ [reserve |-> 12000, crr |-> 10]),
                Tok("RecreateCoin", "a1", NewTok("TOK", 3, 6, 40, FALSE, FALSE) @@ [reserve |-> 12000, crr |-> 10])}
          ELSE {})
-TxMenu == (IF "Tokens" \in Menu THEN TokenTxs ELSE {}) \cup (IF "Send" \in Menu THEN SendTxs ELSE {})
+\* a ticker recreated again and again (every archived coin gets a version of its own), by its owner, by a new owner, as a token or as a coin
+RecreateTxs ==
+   {Tok("CreateToken", "o1", NewTok("TOK", 3, 10, 20, TRUE, TRUE)),
+    Tok("RecreateToken", "o1", NewTok("TOK", 3, 7, 30, TRUE, FALSE)), Tok("RecreateToken", "a1", NewTok("TOK", 3, 7, 30, TRUE, FALSE)),
+    Tok("RecreateCoin", "o1", NewTok("TOK", 3, 6, 40, FALSE, FALSE) @@ [reserve |-> 10000, crr |-> 10]),
+    Tok("EditCoinOwner", "o1", [symbol |-> "TOK", newOwner |-> "a1"])}
+TxMenu == (IF "Tokens" \in Menu THEN TokenTxs ELSE {}) \cup (IF "Recreate" \in Menu THEN RecreateTxs ELSE {}) \cup (IF "Send" \in Menu THEN SendTxs ELSE {})
      \cup (IF "Multisend" \in Menu THEN MultisendTxs ELSE {})
      \cup (IF "Multisig" \in Menu THEN CreateMsTxs \cup MsSpendTxs \cup FundMsTxs \cup EditMsTxs ELSE {})
      \cup (IF "Lock" \in Menu THEN LockTxs ELSE {})
@@ -258,6 +264,7 @@ ReachStep ==
    /\ Mark("BurnByHolder", OkTx("BurnToken") /\ Tx.sender = "a1")
    /\ Mark("BurnBelowMinimum", RejTx("BurnToken", WrongCoinEmission))
    /\ Mark("BurnNotBurnable", RejTx("BurnToken", CoinNotBurnable))
+   /\ Mark("RecreatedThreeTimes", OkTx("RecreateToken") /\ \E c \in DOMAIN st.coins : st.coins[c].sym = Arg("symbol") /\ st.coins[c].ver = 2)
    /\ Mark("CoinCreated", OkTx("CreateCoin"))
    /\ Mark("CoinReserveTooLow", RejTx("CreateCoin", WrongCoinSupply))
    /\ Mark("CoinWrongCrr", RejTx("CreateCoin", WrongCrr))
